@@ -42,6 +42,32 @@ def logp : P (LogP Float) := do
 
 def logps (n : Nat) : P (List (LogP Float)) := many n logp
 
+def hexVal (ch : Char) : Nat :=
+  if ch.isDigit then ch.toNat - '0'.toNat else if 'a' ≤ ch && ch ≤ 'f' then ch.toNat - 'a'.toNat + 10 else 0
+
+/-- a string token: `x` followed by the hex of its UTF-8 bytes -/
+def str : P String := do
+  let t ← tok
+  match t.toList with
+  | 'x' :: hs =>
+    let rec go : List Char → List UInt8
+      | a :: b :: rest => UInt8.ofNat (hexVal a * 16 + hexVal b) :: go rest
+      | _ => []
+    match String.fromUTF8? (ByteArray.mk (go hs).toArray) with
+    | some s => pure s
+    | none => throw "bad-op:utf8"
+  | _ => throw s!"bad-op:not-a-string:{t}"
+
+def hexDigit (n : Nat) : Char := if n < 10 then Char.ofNat (n + 48) else Char.ofNat (n - 10 + 97)
+
+def outS (s : String) : String :=
+  "x" ++ String.ofList (s.toUTF8.toList.flatMap fun b => [hexDigit (b.toNat / 16), hexDigit (b.toNat % 16)])
+
+/-- a double that may be NaN (`none`) -/
+def optFlt : P (Option Float) := do
+  let x ← flt
+  pure (if x.isNaN then none else some x)
+
 def done : P Unit := do
   match (← get) with
   | [] => pure ()
